@@ -5,10 +5,20 @@ EXTENDS Grid, TLC, Json, IOUtils
 VARIABLE l
 Lines == TLCGet(7)
 Init == TLCSet(7, ndJsonDeserialize(IOEnv.TRACE_FILE)) /\ l = 1
-Judge(e) == LET r == FirstFail(GridClauses(e))
+\* large grids: the clauses evaluated by the harness on the full tables (E4), related here
+BigFailing(e) == {c \in {"FaceCounts", "FacesJoinNeighbours", "RevIsInverse", "InteriorExteriorPartition", "TablesInRange"} :
+                    CASE c = "FaceCounts" -> e.counts_ok = 0
+                      [] c = "FacesJoinNeighbours" -> e.neighbours_ok = 0
+                      [] c = "RevIsInverse" -> e.rev_inverse_ok = 0
+                      [] c = "InteriorExteriorPartition" -> e.partition_ok = 0
+                      [] c = "TablesInRange" -> e.kinds_ok = 0}
+JudgeTables(e) == LET r == FirstFail(GridClauses(e))
             IN IF r # "ok" THEN PrintT(<<"BAD", e.tid, l, AllFail(GridClauses(e))>>)
                ELSE IF ~SameConvention(e) THEN PrintT(<<"DRIFT", e.tid, l, "numbering">>)
                ELSE TRUE
+Judge(e) == IF "op" \in DOMAIN e /\ e.op = "big"
+            THEN (IF BigFailing(e) = {} THEN TRUE ELSE PrintT(<<"BAD", e.tid, l, BigFailing(e)>>))
+            ELSE JudgeTables(e)
 Next == /\ l <= Len(Lines)
         /\ Judge(Lines[l])
         /\ l' = l + 1
